@@ -360,6 +360,17 @@ class KernelAnalysis:
         if self._maybe_degree_unpack(st):
             return
         if isinstance(st, ast.Assign):
+            # views of one coefficient of a graded array held in a local: later in-place updates of the local are stores
+            if not hasattr(self, 'view_alias'):
+                self.view_alias = {}
+            for t_ in st.targets:
+                for n_ in ast.walk(t_):
+                    if isinstance(n_, ast.Name):
+                        self.view_alias.pop(n_.id, None)
+            if len(st.targets) == 1 and isinstance(st.targets[0], ast.Name) and isinstance(st.value, ast.Subscript) \
+                    and self._arr_name(st.value.value) in self.gvars and st.targets[0].id not in self.gvars:
+                import copy as _copy
+                self.view_alias[st.targets[0].id] = _copy.deepcopy(st.value)
             return self.assign(st)
         if isinstance(st, ast.AugAssign):
             return self.augassign(st)
@@ -1104,7 +1115,7 @@ class KernelAnalysis:
             # method call on a value
             recv = self.ev(c.func.value)
             m = c.func.attr
-            if m in ('copy', 'transpose', 'reshape', 'conj', 'conjugate', 'astype', 'ravel', 'flatten', 'squeeze'):
+            if m in ('copy', 'transpose', 'reshape', 'conj', 'conjugate', 'astype', 'ravel', 'flatten', 'squeeze', 'swapaxes'):
                 return recv
             if m in ('fill',):
                 return Val.scalar(recv.reads)
@@ -1175,6 +1186,12 @@ class KernelAnalysis:
         if name in LINEAR_UNARY and args:
             v = args[0]
             return Val(v.kind, v.w, reads, v.factors, posvar=v.posvar, length=v.length, why=v.why)
+        if name in ('swapaxes', 'moveaxis') and len(c.args) == 3 and all(
+                (isinstance(a_, ast.UnaryOp) and isinstance(a_.op, ast.USub) and isinstance(a_.operand, ast.Constant))
+                or (isinstance(a_, ast.Constant) and isinstance(a_.value, int) and a_.value >= 2) for a_ in c.args[1:]):
+            # two matrix axes change places (negative axes / axes behind (D, P)): the coefficient axis stays where it is
+            v = args[0]
+            return Val(v.kind, v.w, reads, v.factors, posvar=v.posvar, length=v.length, why=v.why)
         if name in ('zeros', 'zeros_like', 'empty', 'empty_like', 'ones', 'eye', 'identity'):
             if name in ('zeros', 'zeros_like', 'empty', 'empty_like'):
                 return Val('w', ANY, [])
@@ -1196,7 +1213,7 @@ class KernelAnalysis:
 
     def _graded_base(self, node):
         """x_data / x_data.transpose(..) / Q_data -> graded array name"""
-        while isinstance(node, ast.Call) and isinstance(node.func, ast.Attribute) and node.func.attr in ('transpose', 'copy', 'conj'):
+        while isinstance(node, ast.Call) and isinstance(node.func, ast.Attribute) and node.func.attr in ('transpose', 'copy', 'conj', 'swapaxes'):
             node = node.func.value
         nm = self._arr_name(node)
         return nm if nm in self.gvars else None
@@ -1325,6 +1342,10 @@ class KernelAnalysis:
         # out aliases: y_data = out / z_data = out / Q_data = out[0]
         if isinstance(value, ast.Name) and value.id == 'out':
             self._decl(name, 'out')
+            if 'out' in self.gvars and name != 'out':
+                # `out[...] = 0.; z_data = out`: what was stored through `out` is stored in z_data
+                self.alias_of = getattr(self, 'alias_of', {})
+                self.alias_of[name] = 'out'
             return
         if isinstance(value, ast.Subscript) and isinstance(value.value, ast.Name) and value.value.id == 'out' \
                 and isinstance(value.slice, ast.Constant):
@@ -1966,6 +1987,11 @@ class KernelAnalysis:
     # ------------------------------------------------------------- statements
     def augassign(self, st):
         t = st.target
+        if isinstance(t, ast.Name) and t.id in getattr(self, 'view_alias', {}):
+            # `b_dp = y_data[d, p]` ... `b_dp += e`: the update goes through the view into the graded array
+            v = self.ev(st.value)
+            self.store(self.view_alias[t.id], v, st, aug=st.op)
+            return
         if isinstance(t, ast.Name):
             if t.id in self.gvars:
                 v = self.ev(st.value)
